@@ -142,7 +142,16 @@ def source_drift(pid):
             path = os.path.join(REPO, f)
             cur = hashlib.sha256(open(path, "rb").read()).hexdigest() if os.path.exists(path) else "missing"
             if cur != h: drift.append(f + (" (anchor of this property)" if f in anchors else ""))
-        return sorted(drift)
+        inv = json.load(open(os.path.join(VERIF, "lib", "source_baseline.json"))).get("functions", {})
+        for f in sorted(set(list(inv) + [os.path.relpath(x, REPO) for x in glob.glob(REPO + "/core/src/**/*.rs", recursive=True) + glob.glob(REPO + "/cli/src/**/*.rs", recursive=True)])):
+            path = os.path.join(REPO, f)
+            if not os.path.exists(path): drift.append(f + " (file removed)"); continue
+            src = open(path).read(); i = src.find("#[cfg(test)]"); body = src if i < 0 else src[:i]
+            cur = set(re.findall(r"^\s*(?:pub(?:\([a-z]+\))?\s+)?(?:const\s+)?fn\s+([a-zA-Z0-9_]+)", body, flags=re.M))
+            old_f = set(inv.get(f, []))
+            for n in sorted(cur - old_f): drift.append(f"{f}: fn {n} added (not covered by the model)")
+            for n in sorted(old_f - cur): drift.append(f"{f}: fn {n} removed")
+        return sorted(set(drift))
     except Exception as e:
         return ["baseline unavailable: %s" % e]
 
